@@ -7,7 +7,7 @@ import sys
 from .. import core
 from ..framework import Engine, Violation, api_sig, short_sig, classify, generic_shrinkers, VERIF
 from ..pools import Pools
-from .common import ref_api, ref_cli, file_of, tree_files, norm_rel, cli_sig, strip_ansi
+from .common import ref_api, ref_cli, file_of, tree_files, norm_rel, cli_sig, strip_ansi, report_blocks
 
 OPTSETS_API = [(0, None), (0, None), (0, None), (1, None), (0, ["CheckDefine"]), (2, None), (0, ["Whatever"])]
 OPTSETS_CLI = [(), (), ("--no-colors",), ("-f", "json"), ("-d",), ("-R", "CheckDefine"), ("-o",)]
@@ -67,6 +67,12 @@ class C06(Engine):
             rng.shuffle(cand)
             sp += cand[:n]
         self.stress = sp[:want]
+        # files with diagnostics made by the lexer itself (free-text BAD_LEXEME among them): two of those in one report are what a
+        # per-report cache in a formatter would mix up
+        self.lexdiag = [f for f in sorted(P.files) if any(rule is None for _, rule in (P.alone[f].get("who") or []))]
+        # ... and, among them, files carrying a diagnostic whose text is not the catalogue text of its code (measured)
+        cat = dict(core.N.norm_error.errors)
+        self.freetext = [f for f in sorted(P.files) if any(cat.get(d[1]) != d[2] for d in (P.alone[f].get("diags") or []))]
         self.by_name = {}
         self.by_stem = {}
         for fid in sorted(P.files):
@@ -139,13 +145,16 @@ class C06(Engine):
                 sc["kind"] = "mixed"
             yield 2_000_000 + i, sc
         # (c) CLI-level histories: main() invoked repeatedly in one process, 1..3 files per invocation
-        n_cli = 250 if q else 6000
+        n_cli = 400 if q else 8000
         for i in range(n_cli):
             r = core.derive_rng("c06.cli", self.seed, i)
             k = r.randrange(2, 7)
             chosen = []
+            lexbias = self.lexdiag and r.random() < 0.3
             for _ in range(k):
                 src = tainters if (tainters and r.random() < 0.2) else (self.stress if r.random() < 0.5 else all_ids)
+                if lexbias and r.random() < 0.7:
+                    src = self.freetext if (self.freetext and r.random() < 0.5) else self.lexdiag
                 chosen.append(src[r.randrange(len(src))])
             tree = {}
             names = []
@@ -304,7 +313,26 @@ class C06(Engine):
                     if r.get("killed"):
                         return None
                     return cli_sig(r["ops"][0])
-                vs += self.judge_cli_op(sc, op, o, tf, refsig, cwd, delta, i, kind)
+                found = self.judge_cli_op(sc, op, o, tf, refsig, cwd, delta, i, kind)
+                if not found and o.get("end") == "exit" and "-d" not in opts and "-dd" not in opts:
+                    # the same, as printed: each file's block of the report must read exactly as when the file is checked alone
+                    # (the structured comparison above looks at Error objects; a formatter can still render them differently)
+                    want_blocks = {}
+                    for pth, fid in tf.items():
+                        key, _ = ref_cli(sc, fid, opts)
+                        r = refs[key]
+                        if r.get("killed"):
+                            continue
+                        rb = report_blocks(r["ops"][0])
+                        if len(rb) == 1:
+                            want_blocks.setdefault(rb[0][0], set()).add(rb[0][1])
+                    for name, block in report_blocks(o):
+                        if name in want_blocks and block not in want_blocks[name]:
+                            found.append(Violation(self.prop, "C06.path-spelling" if kind == "spelling" else "C06.same-as-alone",
+                                                   f"cli state[{','.join(delta) or 'unchanged'}] the printed block of a file differs from the block it gets alone",
+                                                   {"op_index": i, "argv": op["argv"], "file": name, "printed": block[:200]}))
+                            break
+                vs += found
         return vs
 
     def judge_cli_op(self, sc, op, o, tf, refsig, cwd, delta, i, kind):
